@@ -4,6 +4,7 @@ package bridge
 
 import (
 	"fmt"
+	"sync/atomic"
 
 	"github.com/free5gc/ike/eap"
 	"github.com/free5gc/ike/message"
@@ -194,7 +195,7 @@ func buildTransform(t abs.Transform, a *arena) *message.Transform {
 	if a.mode == LayoutArena && a.interned != nil {
 		key = fmt.Sprintf("%d/%d/%v/%v/%d/%d/%x", t.Type, t.ID, t.HasAttr, t.TV, t.AttrType, t.AttrVal, t.AttrBytes)
 		if lt, ok := a.interned[key]; ok {
-			SharedTransformObjects++
+			atomic.AddInt64(&SharedTransformObjects, 1)
 			return lt
 		}
 	}
